@@ -172,7 +172,7 @@ PROPS = {
     },
     "C16": {
         "level": "exploration",
-        "stages": [dict(hist("codec", "codec::codec_c16", 14, 200), crash_is_violation=True),
+        "stages": [dict(hist("codec", "codec::codec_c16", 14, 200), crash_is_violation=True, rlimit_as_gb=8),
                    {"name": "layout", "kind": "python", "module": "offline_oracles", "oracle": "layout", "source_stage": "codec"},
                    {"name": "miri", "kind": "miri", "test": "codec::codec_c16", "cases": {"quick": 0, "thorough": 2}, "tiers": ["thorough"], "shards": 8, "env": {"VERIF_MAX_FLIPS": "48", "VERIF_PREFIX_STEP": "5", "VERIF_NOHASH": "1"}}],
         "rule": "case = one (state-file instance, damage) pair: write/read round trip through ruler's own writer and reader on a fresh handle, every strict prefix, single bit flips (every position of small images), random byte strings; a panic or a process abort is a violation, an accepted prefix is a violation; exported images are decoded by an independent bincode reader; distinct by (image, damage)",
